@@ -21,6 +21,7 @@ type AtCall struct {
 	Cl        Clause
 	Assume    bool   // environment assumption (listed in the evidence) instead of an obligation
 	SetVar    string // set-at-call: the ghost variable that receives the value of Cl at this point
+	After     bool   // set-after-call: evaluated after the call, `result`/`resultN` are the call's results
 	Interfere string // "before" | "after": other threads run at this point (interfere-at-call / interfere-after-call)
 }
 
@@ -744,7 +745,7 @@ func (sp *Specs) loadSpecFile(path, pkgPrefix string, assumed bool) error {
 			}
 			g.Cond = cl
 			cur.Gates = append(cur.Gates, g)
-		case "at-call", "env-at-call", "set-at-call":
+		case "at-call", "env-at-call", "set-at-call", "set-after-call":
 			if cur == nil {
 				return fmt.Errorf("%s:%d: clause outside func", path, l.ln)
 			}
@@ -758,7 +759,8 @@ func (sp *Specs) loadSpecFile(path, pkgPrefix string, assumed bool) error {
 				ac.Ord, _ = strconv.Atoi(f[0][i+1:])
 			}
 			body := strings.TrimSpace(f[1])
-			if word == "set-at-call" {
+			if word == "set-at-call" || word == "set-after-call" {
+				ac.After = word == "set-after-call"
 				j := strings.Index(body, "=")
 				if j < 0 {
 					return fmt.Errorf("%s:%d: set-at-call Callee[#k] ghostvar = expr", path, l.ln)
